@@ -124,6 +124,22 @@ def f16c_graphs(ws):
     I = vg.Interp(mod)
     return (hoist(I.run('w_f2h').ret()), hoist(I.run('w_h2f').ret()), I)
 
+def env_rule_software(rep, ws, rule, where='src/Imath/half.h'):
+    """the integer-only rule for the two software back-ends as compiled for C11 (used by C01, whose own scope is the table build)"""
+    FPOPS = ('fadd', 'fmul', 'fdiv', 'frem', 'fptosi', 'fptoui', 'sitofp', 'uitofp', 'fptrunc', 'fpext', 'fcmp', 'fneg')
+    lang, std, src = LANGS[0]
+    for bname, flags in BACKENDS[:2]:
+        try:
+            mod = ws.module('c01_env_%s' % bname, src, lang=lang, std=std, extra=flags, prefixes=('w_',))
+            I = vg.Interp(mod)
+            gs = (hoist(I.run('w_f2h').ret()), hoist(I.run('w_h2f').ret()))
+        except (build.BuildError, vg.Unsupported) as e:
+            rep.ob('software conversion[%s]: integer only' % bname, rule, UNDECIDED, str(e)[:300], where); continue
+        for i, fn in enumerate(('imath_float_to_half', 'imath_half_to_float')):
+            hit = uses(gs[i], lambda y: y.op in FPOPS or (y.op == 'call' and y.ty in ('float', 'double')))
+            rep.ob('%s[%s]: integer only' % (fn, bname), rule, VIOLATED if hit is not None else HOLDS,
+                   'the %s back-end computes with a floating-point operation (%s): the result then depends on the caller\'s floating-point environment (denormals-are-zero / flush-to-zero turn subnormal values into zero)' % (bname, T.show(hit, 3)[:120]) if hit is not None else 'bit operations only', where, nontrivial=False)
+
 def main(rep, ws, tier):
     ws.configure()
     graphs = {}
@@ -161,6 +177,19 @@ def main(rep, ws, tier):
         # software float->half identical in table / no-table builds
         same = t[0] is n[0]
         rep.ob('imath_float_to_half: table build == no-table build', 'R02.f2h', HOLDS if same else VIOLATED, '' if same else 'the software float->half differs between the two software builds', where)
+    # R02.env: the software back-ends are bit manipulations - no floating-point operation, whose result would depend on the
+    # caller's floating-point environment (rounding mode, flush-to-zero / denormals-are-zero)
+    FPOPS = ('fadd', 'fmul', 'fdiv', 'frem', 'fptosi', 'fptoui', 'sitofp', 'uitofp', 'fptrunc', 'fpext', 'fcmp', 'fneg')
+    def fp_op(x): return uses(x, lambda y: y.op in FPOPS or (y.op == 'call' and y.ty in ('float', 'double')))
+    for bname in ('table', 'notable'):
+        for std in [l[1] for l in LANGS]:
+            g = graphs.get((bname, std))
+            if g is None: continue
+            for i, fn in enumerate(('imath_float_to_half', 'imath_half_to_float')):
+                hit = fp_op(g[i])
+                rep.ob('%s[%s,%s]: integer only' % (fn, bname, std), 'R02.env', VIOLATED if hit is not None else HOLDS,
+                       'the %s back-end computes with a floating-point operation (%s): its result then depends on the floating-point environment of the caller - with denormals-are-zero or flush-to-zero set (any program linked with -ffast-math) subnormal values come out as zero, while the table and the F16C instruction are unaffected' % (bname, T.show(hit, 3)[:120]) if hit is not None else
+                       'bit operations only (the float is only reinterpreted)', where, nontrivial=False)
     # half.cpp defines the table iff !NO_LOOKUP_TABLE
     try:
         bc = ws.compile_file('c02_half_notable', build.REPO + '/src/Imath/half.cpp', extra=['-DIMATH_HALF_NO_LOOKUP_TABLE'])
